@@ -72,6 +72,10 @@ def py_flatten(f: Forest, prefix: str = '') -> dict[str, str]:
 	return out
 
 
+def prefix_closed(d: dict[str, str]) -> bool:
+	return all('.' not in p or p.rsplit('.', 1)[0] in d for p in d)
+
+
 def flat_text(d: dict[str, str]) -> str:
 	return ','.join(f'{p}={hx(k)}' for p, k in d.items()) if d else '-'
 
@@ -514,7 +518,15 @@ def case_table_stub(rng: random.Random, i: int) -> tuple[dict[str, Any], list[st
 			field = 'types' if row['class'] == 'Symbol' else rng.choice(['node', 'decl'])
 			row[field] = rng.choice([n.dsn for n in all_nodes] + ['ma#file_input.nowhere'])
 		else:
-			row['attrs'] = mutate_flat(rng, row['attrs'], keys)
+			# a dict that is not prefix-closed can make the walk of _deserialize_attrs enter the attribute objects of a table entry
+			# (shared between all users of the entry) and extend them in place; the model stops there (`out-of-model`), so such
+			# dicts are only generated against tables whose entries have no attributes (stream rebuild-stub does the same)
+			shared = any(e.attrs for e in entries.values())
+			for _ in range(20):
+				cand = mutate_flat(rng, row['attrs'], keys)
+				if not shared or prefix_closed(cand):
+					row['attrs'] = cand
+					break
 		rows[rows.index((k, data[k]))] = (k, row)
 	run.pending = dict(rows)
 	ops_import = ['t.import', rows_text(run.pending)]
@@ -934,16 +946,19 @@ ORDER_WITNESS = ('from typing import Generic, TypeVar\n'
 
 
 REAL_MODULES = [
+	# all of these load on the pinned tree (a load failure is reported as a finding)
 	'example.json',
 	'tests.unit.rogw.tranp.semantics.reflection.fixtures.fixture_db',
-	'tests.unit.rogw.tranp.semantics.fixtures.fixture_reflections',
 	'tests.unit.rogw.tranp.implements.cpp.transpiler.fixtures.fixture_py2cpp',
-	'tests.unit.rogw.tranp.view.fixtures.fixture_helper',
-	'rogw.tranp.lang.sequence',
-	'rogw.tranp.dsn.dsn',
-	'rogw.tranp.dsn.module',
-	'rogw.tranp.cache.cache',
-	'rogw.tranp.lang.string',
+	'tests.unit.rogw.tranp.semantics.fixtures.fixture_reflections',
+	'tests.unit.rogw.tranp.implements.cpp.transpiler.fixtures.fixture_py2cpp_edge',
+	'tests.unit.rogw.tranp.implements.transpiler.fixtures.fixture_evaluator',
+	'tests.unit.rogw.tranp.syntax.node.fixtures.fixture_definition',
+	'tests.unit.rogw.tranp.syntax.node.fixtures.fixture_node',
+	'rogw.tranp.compatible.cpp.cvar',
+	'rogw.tranp.compatible.python.embed',
+	'rogw.tranp.errors',
+	'rogw.tranp.lang.convertion',
 ]
 
 
@@ -1215,7 +1230,7 @@ def real_pass(ctx: Ctx) -> tuple[list[Stream], SearchResult]:
 	stats: Counter[str] = Counter()
 	inv_hist: Counter[str] = Counter()
 	inv_broken: list[str] = []
-	for ld, stats in load_programs(ctx, 'real', ctx.scale(36, 1000), REAL_MODULES[:ctx.scale(2, len(REAL_MODULES))]):
+	for ld, stats in load_programs(ctx, 'real', ctx.scale(36, 500), REAL_MODULES[:ctx.scale(2, len(REAL_MODULES))]):
 		if ld.app is None:
 			res.cases += 1
 			key = f"load:{ld.kind.split(':')[0]}:{ld.kind.split(':')[1]}"
@@ -1329,10 +1344,16 @@ def replay(ctx: Ctx, path: str) -> int:
 		rec = json.load(f)
 	print(json.dumps(rec, indent=1, ensure_ascii=False)[:6000])
 	inp = rec.get('input', rec)
-	if rec.get('kind') == 'failing-input' and inp.get('sources'):
+	if inp.get('sources'):
 		app = MultiApp(ctx.tmpdir())
-		app.load(inp['sources'], inp['entry'])
-		findings = check_module(Loaded(inp.get('program', 'replay'), app, 'replay', inp['sources'], inp['entry']), inp['module'])
+		try:
+			app.load(inp['sources'], inp['entry'])
+		except Exception as e:  # noqa: BLE001
+			print(f'replay: the program no longer loads: {exc_enum(e)}: {str(e)[:200]}')
+			print(f'VIOLATION property={PROP} replay={path}')
+			ctx.cleanup()
+			return 1
+		findings = check_module(Loaded(inp.get('program', 'replay'), app, 'replay', inp['sources'], inp['entry']), inp.get('module', inp['entry']))
 		for fnd in findings:
 			print(f'replay: {fnd.key}: {fnd.what}')
 		known = {k['key'] for k in common.load_known(PROP) if k.get('status') == 'known'}
